@@ -131,7 +131,7 @@ def merge_brle_lengths(lengths):
     accumulating = False
     for length in lengths[1:]:
         if accumulating:
-            out[-1] += length
+            out[-1] += int(length)
             accumulating = False
         else:
             if length == 0:
@@ -308,7 +308,7 @@ def merge_rle_lengths(values, lengths):
         if length == 0:
             continue
         if value == curr:
-            ret_lengths[-1] += length
+            ret_lengths[-1] += int(length)
         else:
             curr = value
             ret_lengths.append(int(length))
